@@ -112,6 +112,32 @@ def run_case(case):
             "dg": (obs["verdict"], obs["calls"], sorted(obs["status"].items()), obs["hooks"])}
 
 
+def history_case(case):
+    """the SAME parsed model is run twice with different tag expressions (no reset in between): the second run must
+    select by the expression then in force only"""
+    feat, expr1, expr2, reset = case
+    prog = (feat,)
+    cfg2 = {"tags": expr2}
+    obs = harness.run_case(prog, {"tags": expr1}, hooks=True, second_run=True, second_cfg=cfg2, reset_between=bool(reset))
+    ref = refrun.predict(prog, cfg2, hooks=True)
+    v = refrun.compare(prog, ref, obs, what=("verdict", "status", "steps", "calls", "hooks"))
+    for d, msg in v:
+        d["history"] = "second-run-other-expression" + ("" if reset else "-no-reset")
+    sel = [p for p, (k, i) in ref.info.items() if ref.selected(i["tags"])]
+    return {"v": v, "nt": digest(case) if sel and len(sel) < len(ref.info) else None, "out": ("history", expr1, expr2, len(sel)),
+            "dg": (obs["verdict"], obs["calls"], sorted(obs["status"].items()))}
+
+
+def history_cases(tier):
+    exprs = ("t", "not t", "u", "t or u", "-t") if tier == "quick" else EXPRS[:10]
+    for feat, nslots in programs(tier):
+        if nslots != 2 and tier == "quick":
+            continue
+        for e1, e2 in itertools.permutations(exprs, 2):
+            for reset in (0, 1):
+                yield (feat, e1, e2, reset)
+
+
 def cases(tier):
     quick = tier == "quick"
     for feat, nslots in programs(tier):
@@ -131,4 +157,5 @@ def cases(tier):
 def run(ctx):
     ctx.bounds = {"nonempty_tag_slots": 2 if ctx.quick else 3, "expressions": len(EXPRS), "switch_combinations": 4}
     ctx.sweep(run_case, cases(ctx.tier), chunk=48, name="tagged programs x expressions x switches")
+    ctx.sweep(history_case, history_cases(ctx.tier), chunk=48, name="same model run twice with different expressions")
     ctx.guard(len(ctx.nt) > 2000, "at least 2000 distinct cases with both selected and de-selected scenarios")
